@@ -366,9 +366,20 @@ async fn run_case(case: &Case, keys: Arc<Vec<Vec<u8>>>, prop: &str, tag: usize) 
             Some(i) => i.clone(),
             None => continue,
         };
-        let key = &keys[*slot];
         for start in &members {
             probes += 1;
+            // key shapes rotate over the probes: all of them hash to `slot` by the Redis Cluster
+            // hash-tag rule (first '{', first '}' after it, non-empty tag), whatever surrounds the tag
+            let base = &keys[*slot];
+            let shaped: Vec<u8> = match if prop == "C02" { probes % 6 } else { 0 } {
+                1 => [b"{".as_ref(), base, b"}suffix"].concat(),
+                2 => [b"a}{".as_ref(), base, b"}x"].concat(),
+                3 => [b"{".as_ref(), base, b"}{zz}"].concat(),
+                4 => [b"x{".as_ref(), base, b"}y}z{w}"].concat(),
+                5 => [b"}}{".as_ref(), base, b"}"].concat(),
+                _ => base.clone(),
+            };
+            let key = &shaped;
             let val = format!("v{}-{}", tag, probes).into_bytes();
             let mark = sim.world.log_len();
             let mut cur = start.clone();
